@@ -35,3 +35,26 @@ func verifYield(point string) {
 		VerifYield(point)
 	}
 }
+
+// VerifNewConn, when set, is told about every Conn the server creates, before
+// its first read or write.
+var VerifNewConn func(c *Conn)
+
+func verifNewConn(c *Conn) {
+	if VerifNewConn != nil {
+		VerifNewConn(c)
+	}
+}
+
+// VerifConnLocked reports whether the mutex of c is held at this moment, by
+// whichever goroutine. A simulated transport or backend uses it to know that
+// it must not park the caller (a goroutine sleeping with the mutex held, plus
+// one waiting for it, stops a simulated clock), and to notice blocking
+// operations issued with the mutex held.
+func VerifConnLocked(c *Conn) bool {
+	if c.locker.TryLock() {
+		c.locker.Unlock()
+		return false
+	}
+	return true
+}
